@@ -79,7 +79,22 @@ def run(prog: Program, rep: Report, tier: str):
     set_rng_propagation(prog, rep, own, fwd, clause="C08.2")  # the injected generator reaches nested members
     member_stability(prog, rep, own, clause="C08.2")
     wrappers = seeded_wrappers(prog, own)
-    rep.floor("seeded wrapper classes (concrete, incl. subclasses)", len(wrappers), 12)
+    # a wrapper that stores a seed but builds no generator in any method that takes the index cannot make sample i a function
+    # of (seed, i): whatever generator its transforms hold was created at some other time (construction, worker start)
+    kdw_ = prog.cls("KDWrapper")
+    for C in prog.subclasses("KDWrapper"):
+        if C in wrappers or "seed" not in own.types.of(C) or prog.is_dead(C.module):
+            continue
+        entries = [C.lookup(n) for n in sorted({n for K in C.mro_classes() for n in K.methods if n.startswith("getitem_")})]
+        entries = [e for e in entries if e is not None and e.cls is not None and kdw_ in e.cls.mro() and e.cls is not kdw_
+                   and "idx" in e.params()]
+        if entries and fwd.members(C):
+            o = rep.bad("G4.seed-dep", C.module, f"generator:{C.name}", f"{C.name} stores a seed and applies owned transforms in "
+                        f"{', '.join(e.name for e in entries[:3])}, but no method that receives the index constructs a generator "
+                        f"from (seed, idx): the sample no longer depends on (seed, idx) alone (a generator bound at construction "
+                        f"or at worker start is replaced / advanced by other events)", line=C.node.lineno, clause="C08.1")
+            o.func = entries[0].qualname
+    rep.floor("seeded wrapper classes (concrete, incl. subclasses)", len(wrappers), 8)
     declaring = set()
     n_apps = 0
     for C in wrappers:
